@@ -46,6 +46,14 @@ DESCR = {
     "C12-m4": ("too-short len_scale list padded with ones in front instead of repeating the last value", "len_scale list with 2 <= len < dim", ""),
     "C18-m3": ("Normalizer.derivative validates against denormalize_range", "normalizer whose two ranges differ, data between them", ""),
     "C18-m4": ("prepared kriging conditions cached and only reset by set_condition", "call, then mean= / trend= / normalizer= on the Krige object, call again", "C07 Krige-level setter histories added after a look at the site"),
+    "C11-m3": ("Fourier spectrum weights computed before the mode grid is rebuilt for a new anisotropy", "Fourier generator, in-place anis change between two calls", ""),
+    "C11-m4": ("meshio centroid blocks sliced with the previous block's length instead of the cumulative offset", "meshio mesh with >= 3 cell blocks, points='centroids'", "C11 mesh jobs added after reading the author's summary; the real-field version was undecided under the change, an opaque-field version decides it at once"),
+    "C13-m3": ("lat-lon + time: the whole stacked position (incl. time) multiplied by the radius", "latlon, temporal, geo_scale != 1", ""),
+    "C13-m4": ("Krige(fit_variogram=True) no longer forwards geo_scale to vario_estimate", "lat-lon model with geo_scale != 1, fit_variogram=True", "C13 forwarding job added after reading the author's summary"),
+    "C14-m3": ("integral_scale setter writes the final length scale without the bounds check", "non-default len_scale bounds and a model whose integral scale differs from its length scale", "C14 bounds_len operation added after reading the author's summary"),
+    "C14-m4": ("sill computed from the raw variance", "truncated-power-law model with var_factor != 1", ""),
+    "C20-m3": ("normaliser input check writes NaN into the caller's array", "bounded-range normaliser, float64 array with an out-of-range value", "out-of-range data case added after reading the author's summary; a value replaced by NaN was a harness error first, now a reported change"),
+    "C20-m4": ("vario_estimate_axis drops copy=True on the masked input", "masked array with a mask and additional NaN / no_data cells", ""),
     "C20-m1": ("asarray instead of array before in-place detrending", "check_shape=False path with float input", ""),
     "C20-m2": ("bin edges converted to radians in place", "latlon, caller's float array", ""),
 }
